@@ -451,6 +451,16 @@ static Packet buildPacket(const MsgSpec& m)
     return pk;
 }
 
+PacketRef makePacket(const MsgSpec& m, uint16_t dev, uint8_t stream)
+{
+    preCall();
+    auto p = std::make_shared<Packet>(buildPacket(m));
+    p->setDeviceId(dev);
+    p->setStreamId(stream);
+    p->setSequenceCounter(0);
+    return std::static_pointer_cast<void>(p);
+}
+
 std::vector<Bytes> Enc::encode(const std::vector<MsgSpec>& batch, size_t minBytes, size_t maxBytes, int mode)
 {
     DataContext ctx;
